@@ -87,16 +87,20 @@ def run(ctx):
     exp = []
     pollute.preparse(P, look, strings)
     sub = type("FreshSub2", (P.Rule,), {})
+    # "as seen from any grammar": also a grammar class derived from another grammar class (which defines rules of its own)
+    mid = type("MidGrammar", (P.Rule,), {})
+    mid.create('own = "x" DIGIT')
+    subsub = type("SubSub", (mid,), {})
     for name in CORE:
-        for cls in (P.Rule, sub):
+        for cls in (P.Rule, sub, subsub):
             rule = cls(name)
             for s in strings:
-                if name not in ("CRLF", "LWSP") and cls is sub and len(s) > 2:
+                if name not in ("CRLF", "LWSP") and cls is not P.Rule and len(s) > 2:
                     continue
                 py = lib.py_lparse(P, rule, s, 0, full=False)
                 c = lib.cps(s)
                 lines.append(f"rfcends {name} 0" + ((" " + c) if c else ""))
-                exp.append((name, cls is sub, s, py))
+                exp.append((name, cls is not P.Rule, s, py))
     out = lib.run_driver(lines)
     multi = 0
     for (name, issub, s, py), model in zip(exp, out):
